@@ -28,7 +28,14 @@ for ID in $SEEDS; do
   rm -rf "$H" /tmp/sm/probe_rt_parent_$ID; H="/tmp/sm/$ID-layout/harness"
   sed -i "s|path = \"/repo\"|path = \"$WT\"|" "$H/Cargo.toml"
   cp "$ROOT/known_findings.json" "$VR/"
-  ( cd "$H" && CARGO_NET_OFFLINE=true cargo build --release --offline >/tmp/sm/$ID-build.log 2>&1 ) || { echo "$ID - harness-build-failed" >> "$OUT"; }
+  built=0
+  for attempt in 1 2 3 4; do
+    if ( cd "$H" && CARGO_NET_OFFLINE=true cargo build --release --offline >/tmp/sm/$ID-build.log 2>&1 ); then built=1; break; fi
+    # cargo's target probe fails spuriously on a loaded machine; anything else is a real error
+    grep -q "learn about target-specific information" /tmp/sm/$ID-build.log || break
+    sleep $((attempt * 3))
+  done
+  [ "$built" = 1 ] || echo "$ID - harness-build-failed: $(grep -m1 '^error' /tmp/sm/$ID-build.log | cut -c1-160)" >> "$OUT"
   if [ -x "$H/target/release/pvh" ]; then
     # CHECKS=own: only the check of the property the seed is filed under
     [ "$CHECKS" = own ] && SEED_CHECKS="${ID%%-*}" || SEED_CHECKS="$CHECKS"
